@@ -40,3 +40,9 @@ Proof. vm_compute. reflexivity. Qed.
 Example atomic_table_rejects_change_under_lock :
   atomic_table_ok (retag "GetAndUpdate" "call" "change" 0 (fun r => mkARow (a_fn r) (a_kind r) (a_name r) AExcl 2 (a_line r)) atomic_rows) = false.
 Proof. vm_compute. reflexivity. Qed.
+
+(* the get closure of Value.set consulting the resource's equivalence (one extra row) *)
+Example atomic_table_rejects_equivalence_in_write_path :
+  atomic_table_ok (atomic_rows ++ [mkARow "Value.set/get" "read" "equivalence" AExcl 2 70]) = false /\
+  no_equivalence atomic_rows = true.
+Proof. vm_compute. split; reflexivity. Qed.
